@@ -86,7 +86,7 @@ def run(ctx):
                                        ("ovni_proc_fini", [], "ST_READY", "ST_GONE")):
         fn = prog.fn(fname, OV)
         for sname, sval in ST.items():
-            ex = absint.Explorer(prog, effects=eff, inline=lambda n, d: False)
+            ex = absint.Explorer(prog, effects=eff, auto_inline=False)
             outs = ex.run(fn, args, {(RP, F("ovni_rproc", "st")): INT(sval)})
             live = [o for o in outs if o.kind in ("ret", "exit")]
             inst = "%s:from-%s" % (fname, sname)
